@@ -293,6 +293,15 @@ def check(ctx):
     from . import c20
     c20.check_add(ctx)
     c20.check_delivery(ctx)
+    # what is delivered is the delayed stoichiometry of the reaction list (C03 R3.1 for the delayed lists, R3.3) - re-emitted here
+    from ..core import SubCtx
+    from . import c03
+    sub = SubCtx(ctx)
+    c03.check_accumulation(sub)
+    c03.check_matrices(sub)
+    for rule, key, ok, where, what, detail in sub.got:
+        if (rule == 'R3.1-accumulation' and key.startswith('delay')) or rule == 'R3.3-matrix-fill':
+            ctx.ob('R10.3-delayed-stoichiometry', '%s/%s' % (rule, key), ok, where, what, detail)
     ctx.floor('R10.1-one-disposition', 2)
     ctx.floor('R10.2-delivery', 2)
     ctx.floor('R10.4-sampler', 2)
